@@ -544,6 +544,8 @@ func TestVerifProducer(t *testing.T) {
 	lines := vReadLines(t, "VERIF_CASES")
 	rec := vOpenRec(t, "trace.ndjson")
 	defer rec.Close()
+	vInstallPanicHandler(rec)
+	defer func() { PanicHandler = nil }()
 	n := 0
 	var samples []string
 	for _, line := range lines {
